@@ -827,7 +827,7 @@ pub fn int_vector_add(push_state: &mut PushState, _instruction_cache: &Instructi
                 if ofs_idx >= scd_size {
                     continue; // Out of bounds
                 }
-                iv[0].values[ofs_idx] += iv[1].values[i];
+                iv[0].values[ofs_idx] = iv[0].values[ofs_idx].wrapping_add(iv[1].values[i]);
             }
             push_state.int_vector_stack.push(iv[0].clone());
         }
@@ -849,7 +849,7 @@ pub fn int_vector_subtract(push_state: &mut PushState, _instruction_cache: &Inst
                 if ofs_idx >= scd_size {
                     continue; // Out of bounds
                 }
-                iv[0].values[ofs_idx] -= iv[1].values[i];
+                iv[0].values[ofs_idx] = iv[0].values[ofs_idx].wrapping_sub(iv[1].values[i]);
             }
             push_state.int_vector_stack.push(iv[0].clone());
         }
@@ -871,7 +871,7 @@ pub fn int_vector_multiply(push_state: &mut PushState, _instruction_cache: &Inst
                 if ofs_idx >= scd_size {
                     continue; // Out of bounds
                 }
-                iv[0].values[ofs_idx] *= iv[1].values[i];
+                iv[0].values[ofs_idx] = iv[0].values[ofs_idx].wrapping_mul(iv[1].values[i]);
             }
             push_state.int_vector_stack.push(iv[0].clone());
         }
@@ -898,7 +898,7 @@ pub fn int_vector_divide(push_state: &mut PushState, _instruction_cache: &Instru
                 if iv[1].values[i] == 0 {
                     invalid = true;
                 } else {
-                    iv[0].values[ofs_idx] /= iv[1].values[i];
+                    iv[0].values[ofs_idx] = iv[0].values[ofs_idx].wrapping_div(iv[1].values[i]);
                 }
             }
             if !invalid {
@@ -999,7 +999,7 @@ pub fn int_vector_loop(push_state: &mut PushState, _instruction_cache: &Instruct
 /// INTVECTOR.MEAN: Pushes the mean of the top INTVECTOR to the float stack
 pub fn int_vector_mean(push_state: &mut PushState, _instruction_cache: &InstructionCache) {
     if let Some(numbers) = push_state.int_vector_stack.get(0) {
-        let sum = numbers.values.iter().sum::<i32>() as f32;
+        let sum = numbers.values.iter().map(|x| *x as i64).sum::<i64>() as f32;
         let size = numbers.values.len() as f32;
         push_state.float_stack.push(sum / size);
     }
@@ -1112,7 +1112,9 @@ pub fn int_vector_stack_depth(push_state: &mut PushState, _instruction_cache: &I
 /// INTVECTOR.SUM Pushes the sum of the elements to the INTEGER stack.
 pub fn int_vector_sum(push_state: &mut PushState, _instruction_cache: &InstructionCache) {
     if let Some(ivec) = push_state.int_vector_stack.get(0) {
-        push_state.int_stack.push(ivec.values.iter().sum());
+        push_state
+            .int_stack
+            .push(ivec.values.iter().fold(0i32, |acc, x| acc.wrapping_add(*x)));
     }
 }
 
